@@ -315,9 +315,9 @@ func init() {
 					"host-bound unsigned values that could become a size or a repeat count are below 10^4 or beyond the int64 range",
 					"pending repairs of the pinned tree (c01PendingFix_* constants in c01_r4.go, /tmp/strengthen/C01-r4-genuine.md): NaN keys in compound assignments to entries of nil typed maps, and function literals with more than 100 parameters (126 is where reflect.FuncOf panics; mutations may add a few) are kept out of the generated domain until /repo is repaired",
 					"the moved-stack observation needs the runtime to start the observing goroutine with a stack smaller than 192KB (the default); otherwise it learns nothing and stays silent"}, append(c01AssumptionsR5, c01AssumptionsR6...)...),
-				Phases: []fw.Phase{{Name: "fuzz", Cases: n, Chunk: 25, TimeoutS: 600, MemMB: 6144},
+				Phases: append([]fw.Phase{{Name: "fuzz", Cases: n, Chunk: 25, TimeoutS: 600, MemMB: 6144},
 					{Name: "goroutines", Cases: n / 10, Chunk: 5, TimeoutS: 600, MemMB: 6144},
-					{Name: "cross", Cases: c01CrossSlices, Chunk: 2, TimeoutS: 600, MemMB: 6144, Exhaust: true}},
+					{Name: "cross", Cases: c01CrossSlices, Chunk: 2, TimeoutS: 600, MemMB: 6144, Exhaust: true}}, c01PhasesR8(tier)...),
 			}
 		},
 		Init: func(w *wk.Worker) {
@@ -335,6 +335,9 @@ func init() {
 		Run: func(c *wk.Case) {
 			if c.Phase == "cross" {
 				c01RunCross(c)
+				return
+			}
+			if c01RunR8(c) {
 				return
 			}
 			if c.Phase == "goroutines" {
@@ -364,44 +367,7 @@ func init() {
 			if c.Index == 0 {
 				scripts = append(append([]string{}, c01Fixed...), c01FixedNested()...)
 			} else {
-				for i := 0; i < 70; i++ {
-					switch r := c.Rng.Intn(100); {
-					case r < 15:
-						scripts = append(scripts, c01Soup(c.Rng))
-					case r < 60:
-						s := c01Fill(c.Rng, c01Templates[c.Rng.Intn(len(c01Templates))])
-						if c.Rng.Intn(4) == 0 {
-							s += "\n" + c01Fill(c.Rng, c01Templates[c.Rng.Intn(len(c01Templates))])
-						}
-						scripts = append(scripts, s)
-					case r < 90:
-						s := cor[c.Rng.Intn(len(cor))]
-						for k := 1 + c.Rng.Intn(3); k > 0; k-- {
-							s = c01Mutate(c.Rng, s)
-						}
-						scripts = append(scripts, s)
-					default:
-						g := gen.New(c.Rng, gen.Profile(c.Rng.Intn(3)))
-						var s string
-						if c.Rng.Intn(2) == 0 {
-							s = gen.Source(g.OrderProgram())
-						} else {
-							s = gen.Source(g.Program(40))
-						}
-						scripts = append(scripts, c01Mutate(c.Rng, s))
-					}
-				}
-				// a random template as the body of a top-level loop whose variable takes
-				// operands of different types (drawn last: the scripts above are the ones
-				// earlier versions generated)
-				for i := 0; i < 6; i++ {
-					scripts = append(scripts, c01PolyScript(c.Rng))
-				}
-				// go statements executed inside function bodies, goroutines, deferred
-				// functions, callbacks (c01_r6.go; drawn after everything else)
-				for i := 0; i < 6; i++ {
-					scripts = append(scripts, c01NestedScript(c.Rng))
-				}
+				scripts = c01GenScripts(c, cor)
 			}
 			for _, src := range scripts {
 				if len(src) > 20000 {
@@ -411,6 +377,50 @@ func init() {
 			}
 		},
 	})
+}
+
+// c01GenScripts draws the scripts of one fuzz case (also used by the round-8 phases).
+func c01GenScripts(c *wk.Case, cor []string) []string {
+	var scripts []string
+	for i := 0; i < 70; i++ {
+		switch r := c.Rng.Intn(100); {
+		case r < 15:
+			scripts = append(scripts, c01Soup(c.Rng))
+		case r < 60:
+			s := c01Fill(c.Rng, c01Templates[c.Rng.Intn(len(c01Templates))])
+			if c.Rng.Intn(4) == 0 {
+				s += "\n" + c01Fill(c.Rng, c01Templates[c.Rng.Intn(len(c01Templates))])
+			}
+			scripts = append(scripts, s)
+		case r < 90:
+			s := cor[c.Rng.Intn(len(cor))]
+			for k := 1 + c.Rng.Intn(3); k > 0; k-- {
+				s = c01Mutate(c.Rng, s)
+			}
+			scripts = append(scripts, s)
+		default:
+			g := gen.New(c.Rng, gen.Profile(c.Rng.Intn(3)))
+			var s string
+			if c.Rng.Intn(2) == 0 {
+				s = gen.Source(g.OrderProgram())
+			} else {
+				s = gen.Source(g.Program(40))
+			}
+			scripts = append(scripts, c01Mutate(c.Rng, s))
+		}
+	}
+	// a random template as the body of a top-level loop whose variable takes
+	// operands of different types (drawn last: the scripts above are the ones
+	// earlier versions generated)
+	for i := 0; i < 6; i++ {
+		scripts = append(scripts, c01PolyScript(c.Rng))
+	}
+	// go statements executed inside function bodies, goroutines, deferred
+	// functions, callbacks (c01_r6.go; drawn after everything else)
+	for i := 0; i < 6; i++ {
+		scripts = append(scripts, c01NestedScript(c.Rng))
+	}
+	return scripts
 }
 
 // range() over an astronomically large span would exhaust memory inside one
@@ -434,7 +444,7 @@ var c01GoroutineScripts = []string{
 	"module m1 { a = 1; func f(){ return a } }\ngo func(){ for i = 0; i < $N; i++ { m1.a = i } }()\nfor j = 0; j < $M; j++ { c = m1; c.f(); m1.f() }",
 }
 
-func c01RunOne(c *wk.Case, src string, watchdog time.Duration) {
+func c01RunOne(c *wk.Case, src string, watchdog time.Duration) (outcome string) {
 	src = c01Contain(src)
 	e := c01NewEnvFor(src)
 	base := runtime.NumGoroutine()
@@ -461,15 +471,20 @@ func c01RunOne(c *wk.Case, src string, watchdog time.Duration) {
 	c.Events(1)
 	switch {
 	case o.Panicked:
+		outcome = "panic"
 		c.Tag("outcome:panic")
 		c.Violation(o.PanicSig, "a Go panic reached the caller: "+o.PanicVal+"\n"+firstLinesOf(o.Stack, 14), src)
 	case perr != nil:
+		outcome = "parse-error"
 		c.Tag("outcome:parse-error")
 	case o.Err != nil && o.Err.Error() == "execution interrupted":
+		outcome = "interrupted"
 		c.Tag("outcome:interrupted")
 	case o.Err != nil:
+		outcome = "run-error"
 		c.Tag("outcome:run-error")
 	default:
+		outcome = "value"
 		c.Tag("outcome:value")
 		_ = ank.Render(o.Val) // the bounded printer must cope with whatever came back
 		c01HoldResult(o.Val)  // and the host can keep it while its stack moves
@@ -477,6 +492,7 @@ func c01RunOne(c *wk.Case, src string, watchdog time.Duration) {
 	if c.WantSample() && perr == nil {
 		c.Sample(map[string]string{"src": src, "err": ank.ErrText(o.Err)})
 	}
+	return outcome
 }
 
 func firstLinesOf(s string, n int) string {
